@@ -43,9 +43,79 @@ pub fn run(ctx: &Ctx) -> CheckResult {
             }
         }
     }
+    // configuration / environment variants of one compilable scenario per tool: missing or odd inputs,
+    // outputs that cannot be created, mapfile arguments that are not files.  Same monitors.
+    let mut env_cases: Vec<Case> = vec![];
+    {
+        let mut seen_tools: std::collections::HashSet<String> = Default::default();
+        for (item, base) in items.iter().zip(bases.iter()) {
+            let tool_key = format!("{}:{:?}", item.cmd, item.compile_args.iter().filter(|a| a.starts_with("--m") || a.starts_with("--e")).collect::<Vec<_>>());
+            if !item.id.starts_with("extra/") && !item.id.contains("compile_simple") && !item.id.contains("basic") && !item.id.contains("named") {
+                continue;
+            }
+            if !seen_tools.insert(tool_key) {
+                continue;
+            }
+            let mk = |name: &str, f: &dyn Fn(&mut Case)| {
+                let mut c = base.clone();
+                c.name = format!("{} [config:{}]", base.name, name);
+                f(&mut c);
+                c
+            };
+            let arg_pos = |c: &Case, a: &str| c.steps[0].argv.iter().position(|x| x == a);
+            env_cases.push(mk("missing-input", &|c| c.inputs.retain(|i| i.path != scen::SRC)));
+            env_cases.push(mk("input-is-directory", &|c| {
+                c.inputs.retain(|i| i.path != scen::SRC);
+                c.inputs.push(crate::case::Input::text("input.spec/inner.txt", "x"));
+            }));
+            env_cases.push(mk("empty-input", &|c| {
+                for i in c.inputs.iter_mut() {
+                    if i.path == scen::SRC {
+                        i.base = Base::Text(String::new());
+                    }
+                }
+            }));
+            env_cases.push(mk("output-dir-missing", &|c| {
+                if let Some(p) = arg_pos(c, "-o") {
+                    c.steps[0].argv[p + 1] = "no/such/dir/out.bin".into();
+                }
+            }));
+            env_cases.push(mk("output-is-directory", &|c| c.inputs.push(crate::case::Input::text("out.bin/inner.txt", "x"))));
+            env_cases.push(mk("mapfile-missing", &|c| c.steps[0].argv.extend(["-m".to_string(), "nonexistent.map".to_string()])));
+            env_cases.push(mk("mapfile-is-directory", &|c| c.steps[0].argv.extend(["-m".to_string(), "map".to_string()])));
+            env_cases.push(mk("mapfile-is-binary", &|c| {
+                c.inputs.push(crate::case::Input::corpus("tests/integration/bits-2-bits/th12-registers.anm"));
+                c.steps[0].argv.extend(["-m".to_string(), "tests/integration/bits-2-bits/th12-registers.anm".to_string()]);
+            }));
+            env_cases.push(mk("bad-game", &|c| {
+                if let Some(p) = arg_pos(c, "-g") {
+                    c.steps[0].argv[p + 1] = "th99".into();
+                }
+            }));
+            env_cases.push(mk("pc98-game", &|c| {
+                if let Some(p) = arg_pos(c, "-g") {
+                    c.steps[0].argv[p + 1] = "th05".into();
+                }
+            }));
+            env_cases.push(mk("wrong-game", &|c| {
+                if let Some(p) = arg_pos(c, "-g") {
+                    c.steps[0].argv[p + 1] = if c.steps[0].argv[p + 1] == "th18" { "th06".into() } else { "th18".into() };
+                }
+            }));
+            env_cases.push(mk("unknown-flag", &|c| c.steps[0].argv.push("--no-such-flag".into())));
+            env_cases.push(mk("extra-positional", &|c| c.steps[0].argv.push("stray".into())));
+            env_cases.push(mk("debug-info-dir-missing", &|c| c.steps[0].argv.extend(["--output-debug-info".to_string(), "no/dir/d.json".to_string()])));
+            env_cases.push(mk("no-builtin-mapfiles", &|c| c.steps[0].argv.push("--no-builtin-mapfiles".into())));
+            env_cases.push(mk("image-source-missing", &|c| c.steps[0].argv.extend(["-i".to_string(), "no-such-source".to_string()])));
+        }
+    }
+    let (_r, st_env, f_env, h_env) = par_map(ctx, &env_cases, |w, _, c| w.judge(c));
     // fault-free baseline of everything (O-term / O-diag on the pristine corpus, incl. compile-fail snippets)
     let (_r, mut stats, mut findings, mut herr) = par_map(ctx, &bases, |w, _, c| w.judge(c));
 
+    stats.merge(st_env);
+    findings.extend(f_env);
+    herr.extend(h_env);
     // ---- storage corruptions
     // which inputs of a case are text under attack: the script, its mapfiles, pragma/gamemap map files
     let attackable = |c: &Case| -> Vec<usize> { c.inputs.iter().enumerate().filter(|(_, i)| !matches!(i.base, Base::Tree(_))).map(|(k, _)| k).collect() };
@@ -167,6 +237,7 @@ pub fn run(ctx: &Ctx) -> CheckResult {
 
     let mut extra = BTreeMap::new();
     extra.insert("compile_scenarios".into(), json!(bases.len()));
+    extra.insert("configuration_variants".into(), json!(env_cases.len()));
     extra.insert("scenarios_attacked_in_storage".into(), json!(order.len()));
     extra.insert("single_fault_space_size_of_attacked_files".into(), json!(n_space));
     extra.insert("storage_faults_selected".into(), json!(n_selected));
